@@ -53,16 +53,17 @@ type c10Scenario struct {
 }
 
 type c10Sub struct {
-	id      int
-	derived bool
-	ptr     *fpgo.Subscription[int]
-	subOp   *Op
-	unsubs  []*Op
-	action  string
-	target  int
-	fired   bool
-	initial bool
-	level   int
+	id          int
+	derived     bool
+	ptr         *fpgo.Subscription[int]
+	subOp       *Op
+	unsubs      []*Op
+	action      string
+	target      int
+	fired       bool
+	initial     bool
+	level       int
+	placeholder bool
 }
 
 type c10Pub struct {
@@ -83,7 +84,7 @@ func genC10(t *simrt.Tape, tier string) Scenario {
 	sc.Map = t.Bool(1, 3)
 	sc.NSubs = 3 + t.Choose(4)
 	for i := 0; i < sc.NSubs; i++ {
-		sc.Actions = append(sc.Actions, []string{"none", "unsubSelf", "unsubOther", "subNew", "publishNested"}[t.ChooseW([]int{4, 2, 2, 1, 1})])
+		sc.Actions = append(sc.Actions, []string{"none", "unsubSelf", "unsubOther", "subNew", "publishNested", "placeholder"}[t.ChooseW([]int{4, 2, 2, 1, 1, 1})])
 		sc.Targets = append(sc.Targets, t.Choose(sc.NSubs))
 	}
 	if sc.Map {
@@ -150,6 +151,15 @@ func (sc *c10Scenario) Run(s *simrt.Sim) {
 	newSub = func(name string, pub *fpgo.PublisherDef[int], derived bool, action string, target int) *c10Sub {
 		cs := &c10Sub{id: len(sc.subs), derived: derived, action: action, target: target}
 		sc.subs = append(sc.subs, cs)
+		if action == "placeholder" {
+			// a registered subscription without a callback: gets nothing, disturbs nobody
+			cs.subOp = h.Do(name, "Subscribe", cs.id, func() (interface{}, error) {
+				cs.ptr = pub.Subscribe(fpgo.Subscription[int]{})
+				return nil, nil
+			})
+			cs.placeholder = true
+			return cs
+		}
 		cs.subOp = h.Do(name, "Subscribe", cs.id, func() (interface{}, error) {
 			cs.ptr = pub.Subscribe(fpgo.Subscription[int]{OnNext: func(v int) {
 				sc.deliv = append(sc.deliv, c10Deliv{sub: cs.id, val: v, at: s.Stamp(), thread: s.Self().ID})
@@ -302,8 +312,8 @@ func (sc *c10Scenario) Check(res *simrt.Result) []Violation {
 					}
 				}
 			}
-			must := cs.subOp.Ret < P.op.Inv
-			mustNot := cs.subOp.Inv > P.op.Ret
+			must := cs.subOp.Ret < P.op.Inv && !cs.placeholder
+			mustNot := cs.subOp.Inv > P.op.Ret || cs.placeholder
 			for _, u := range cs.unsubs {
 				if u.Inv < P.op.Ret {
 					must = false
